@@ -1,5 +1,5 @@
 """C09 -- branching partitions the chosen domain; backtracking restores the saved state."""
-from ..rules import branching, search
+from ..rules import branching, model, search
 
 EXPLANATION = (
     'Static analysis (abstract interpretation over affine forms, no execution): every registered value heuristic is interpreted from the symbolic pre-state D[T,d]=[lo,hi], lo<hi; on each abstract path the sub-ranges left at levels T..T+k must form the chain lo=l0, u_i+1=l_{i+1}, u_last=hi with every sub-range provably non-empty (Fourier-Motzkin over the path facts and the floor-division axiom), no store may address another domain or a level below T, the returned mask and each recorded replay mask must contain the bit of every bound that differs from the pre-state and GROUND whenever the sub-range may be a single value; cp_put, backtrack and cp_init are checked against the copy-on-push / untouched-on-pop / replay-saved-events oracle.'
@@ -10,4 +10,5 @@ def check(ctx, prog):
     branching.check_value_heuristics(ctx, prog)
     ctx.rule("R-PUSH-POP")
     branching.check_choice_points(ctx, prog)
+    model.rule_constants(ctx, prog, want=("events", "axes"))
     search.rule_solve_one(ctx, prog, want=("R-HANDOVER",))
